@@ -48,6 +48,34 @@ def ser_names(F, ser):
             names.append((nm, False)); kind = "enum"
     return kind, names
 
+def ok_only_after_validate(fn):
+    """(paths returning Ok, problems): on every feasible path of fn that returns Ok(..), a ::validate() call ran and succeeded -
+    `validate()?`, `match validate() { Ok(()) => .., Err(e) => return Err(e) }`, or the result is `validate().map(|()| value)`"""
+    def mentions(e, pred, depth=0):
+        if depth > 12 or not isinstance(e, tuple): return False
+        if pred(e): return True
+        for x in e[1:]:
+            if isinstance(x, tuple) and mentions(x, pred, depth + 1): return True
+            if isinstance(x, list):
+                for y in x:
+                    if isinstance(y, tuple) and (mentions(y, pred, depth + 1) or (len(y) == 2 and isinstance(y[1], tuple) and mentions(y[1], pred, depth + 1))): return True
+        return False
+    is_val = lambda e: e[0] == "call" and isinstance(e[1], str) and e[1].endswith("::validate")
+    try: sps = mir.sym_paths(fn, limit=20000)
+    except mir.TooManyPaths: return None, ["too many paths"]
+    n = 0; probs = []
+    for sp in sps:
+        r = sp.ret()
+        if r[0] == "call" and isinstance(r[1], str) and (r[1].endswith("Result::<T, E>::map") or r[1].endswith("Result::<T, E>::and_then") or r[1].endswith("Result::<T, E>::and")) and r[2] and mentions(r[2][0], is_val):
+            n += 1; continue
+        if not (r[0] == "agg" and str(r[1]).endswith("Result::Ok")): continue
+        n += 1
+        good = False
+        for d, truth, b in sp.facts():
+            if isinstance(truth, tuple) and d[0] == "discr" and mentions(d[1], is_val) and truth[0] == "eq" and tuple(truth[1]) == (0,): good = True
+        if not good: probs.append("Ok returned on a path without a successful validate() (conditions %s)" % [mir.show(d)[:40] for d, t_, b in sp.facts()][:4])
+    return n, probs
+
 def check(F, rep, tier):
     if not rep.anchor("R12.1", "struct Zerv", F.adts.get(ROOT_TY)):
         return core.finish(rep, explanation=EXPL)
@@ -167,7 +195,10 @@ def validate_before_render(F, rep):
         gs = mir.guards_of(zn, ob)
         cont = any(d[0] == "discr" and str(d[2]).startswith("std::ops::ControlFlow") and isinstance(pol, tuple) and "Continue" in pol[1] for d, pol, dd in gs)
         if not (any(v in dom.get(ob, ()) for v in val) and cont): good = False
-    if good: rep.ok(rule, "Zerv::new: schema.validate()? dominates Ok", nontrivial_key="zn")
+    if not good:
+        n_ok_, probs_ = ok_only_after_validate(zn)
+        if n_ok_ and not probs_: good = True
+    if good: rep.ok(rule, "Zerv::new: a successful schema.validate() precedes every Ok", nontrivial_key="zn")
     else: rep.bad(rule, "new-without-validate", "Zerv::new can return Ok without a successful schema.validate()", zn.where())
     # 5. every other construction of a Zerv value reachable from run is on the audited list
     cg = mir.CallGraph(F)
@@ -232,7 +263,9 @@ def who_writes_schema(F, rep):
             dom = mir.dominators(f)
             val = [b2 for b2, t in f.calls() if (mir.callee(t) or "").endswith("::validate")]
             oks = [bi for bi, si, st in f.stmts() if st[0] == "=" and st[1] == [0] and st[2][0] == "agg" and st[2][1].get("variant") == "Ok"]
+            n_ok_, probs_ = ok_only_after_validate(f)
             if val and oks and all(any(v in dom.get(o, ()) for v in val) for o in oks): rep.ok(rule, "ZervSchema::%s validates before Ok" % nm, nontrivial_key=nm)
+            elif n_ok_ and not probs_: rep.ok(rule, "ZervSchema::%s returns Ok only through a successful validate()" % nm, nontrivial_key=nm)
             else: rep.bad(rule, "constructor-without-validate:" + nm, "ZervSchema::%s can return Ok without validate()" % nm, f.where())
 
 def validator_complete(F, rep):
